@@ -14,7 +14,7 @@ from tools.vlib import Outcome
 from tools.props import c12_gen as G
 
 MANIFEST = {
-    "level_text": "Coq theorems (Properties/C12.v, no axioms) about a structural Gallina transcription of event_parser.rs (expression/statement walker, receiver heuristic, function-wide symbol table, infer_payload_type with its fall-backs), event_name_to_function and the events.ts template, for all projects, function bodies (no depth bound), receivers, names and payload forms: every emit at a documented placement is found by the walker (C12_walker_complete, rule induction on EmitsAt over the mutually inductive syntax, any symbol table); on in-domain projects the event list is exactly the list of documented sites in order (C12_walker_exact / C12_walker_sound, nested induction); the listener identifier is a legal non-reserved TypeScript identifier for every event name whatsoever (every non-alphanumeric character becomes '_' before PascalCase); one listener per distinct name however often it is emitted (first emit site in sorted file order wins); main theorem C12_listeners_partial on the complement of the one remaining naming class kf_collision (distinct names with one identifier) and, for payloads, of kf_name_fallback / kf_last_segment / kf_ctor_guess / kf_scope: listeners in bijection with the documented names, each subscribed to its own name, identifiers legal and pairwise distinct, every event from a documented site, and outside the payload classes the payload string is the evident type's name, `()` for unit, `unknown` when nothing is evident (C12_payload_site); no events implies no events.ts and no re-export. String level, token part (C12_events_tokens_parse, for every list of listener records): the token stream of events.ts - two imports, then the listener template once per record with holes for identifier, event name and payload type - has no lexical error, parses with Spec/TsModule.v into the imports plus exactly one function item per record, and the observation layer (find_listen) reads back exactly the records; character part (C12_lex_statement, proved, fuel included): the specification lexer reads exactly that token stream from the text the model prints, for every event list with legal names, hence C12_events_text_parses: parse_module (events_text l) yields exactly the listener records; C12_payload_text_custom: every custom payload type name N renders to the text types.N. Composition: C12_full / C12_full_names - the extracted oracle returns no complaint on the files the model generates, for every in-domain project outside the classes under a boolean payload-name condition (C12_sites_legal discharges the event-name condition; C12_name_ok_prim / C12_name_ok_custom discharge the name condition for primitive and unmapped custom names). Six narrow defect classes (boolean predicates shared by the theorems and the run-time matcher) carry computed witnesses; the witnesses of the four repaired defects (C12-dup, C12-ident, C12-tuple, C12-path) are positive theorems now (C12_*_repaired). The model is tied to /repo on every run: EventParser's events per file compared in order, events.ts compared token for token and in order with the model's text, index.ts re-export and presence of the file compared, and the extracted oracle applied to the files the real CLI wrote.",
+    "level_text": "Coq theorems (Properties/C12.v, no axioms) about a structural Gallina transcription of event_parser.rs (expression/statement walker, receiver heuristic, function-wide symbol table, infer_payload_type with its fall-backs), event_name_to_function and the events.ts template, for all projects, function bodies (no depth bound), receivers, names and payload forms: every emit at a documented placement is found by the walker (C12_walker_complete, rule induction on EmitsAt over the mutually inductive syntax, any symbol table); on in-domain projects the event list is exactly the list of documented sites in order (C12_walker_exact / C12_walker_sound, nested induction); the listener identifier is a legal non-reserved TypeScript identifier for every event name whatsoever (every non-alphanumeric character becomes '_' before PascalCase); one listener per distinct name however often it is emitted (first emit site in sorted file order wins); main theorem C12_listeners_partial on the complement of the one remaining naming class kf_collision (distinct names with one identifier) and, for payloads, of kf_name_fallback / kf_last_segment / kf_ctor_guess / kf_scope: listeners in bijection with the documented names, each subscribed to its own name, identifiers legal and pairwise distinct, every event from a documented site, and outside the payload classes the payload string is the evident type's name, `()` for unit, `unknown` when nothing is evident (C12_payload_site); no events implies no events.ts and no re-export. String level, token part (C12_events_tokens_parse, for every list of listener records): the token stream of events.ts - two imports, then the listener template once per record with holes for identifier, event name and payload type - has no lexical error, parses with Spec/TsModule.v into the imports plus exactly one function item per record, and the observation layer (find_listen) reads back exactly the records; character part (C12_lex_statement, proved, fuel included): the specification lexer reads exactly that token stream from the text the model prints, for every event list with legal names, hence C12_events_text_parses: parse_module (events_text l) yields exactly the listener records; C12_payload_text_custom: every custom payload type name N renders to the text types.N. Composition: C12_full / C12_full_names - the extracted oracle returns no complaint on the files the model generates, for every in-domain project outside the classes under a boolean payload-name condition (C12_sites_legal discharges the event-name condition; C12_name_ok_prim / C12_name_ok_custom discharge the name condition for primitive and unmapped custom names). Six narrow defect classes (boolean predicates shared by the theorems and the run-time matcher) carry computed witnesses; the witnesses of the four repaired defects (C12-dup, C12-ident, C12-tuple, C12-path) are positive theorems now (C12_*_repaired). Binding histories (Spec/C12Bind.v, C12_bindings_*): the symbol table as a state machine bind / run / infer over the statements before an emit; for every history and start table the entry of a name is its LAST TYPABLE binding (un-typable re-bindings can be deleted without changing any table), the fold equals the walker on straight-line bodies, the class C12-scope is restated on histories (kf_bind_scope: last binding un-typable and an entry left) and on its complement with a typable last binding the listener's payload text is that binding's type; witness inside the class. The model is tied to /repo on every run: EventParser's events per file compared in order, events.ts compared token for token and in order with the model's text, index.ts re-export and presence of the file compared, and the extracted oracle applied to the files the real CLI wrote.",
     "design_ref": "DESIGN.md section 5 C12, section 11 (Events.v spike), section 12",
     "level_note": "The composition is now asserted: C12_full (for every in-domain project outside the classes whose sites satisfy the boolean payload-text condition payload_dom, the oracle has no complaint about the model's files), C12_full_names (the same with the condition reduced, through the absence of the payload classes, to payload type NAMES: names_dom = no mapping for `unknown`, no empty struct path, name_ok for every inferred type name), C12_oracle_accepts_text (text level, any site list and mapping), C12_sites_legal (event names of in-domain sites are legal: no longer a side condition), C12_name_ok_prim / C12_name_ok_custom (name_ok for every primitive Rust name under every mapping and for every unmapped custom identifier that is not a TypeScript builtin, a container name or `listen`). What remains between C12_full_names and the unrestricted C12_full_statement is name hygiene only, kept as the unasserted Definition C12_names_dom_statement (false as it stands: a type named `string`, `Vec` without arguments or `listen`, or a mapping with a non-identifier target, defeats it): name_ok for mapped names is shown by evaluation (Example C12_ex_full_dom) but not for all targets, and the hygiene conditions are not part of in_domain. The theorem names C12_listeners_partial / C12_listener_records_partial / C12_payload_simple_partial are kept for reference stability; they are ingredients of C12_full. Domain restriction: event names over [A-Za-z0-9_/:-] (the template does not escape quote, backslash, line break or star-slash). Trusted: Coq kernel; python case printer; syn; Tera; Spec/TsModule.v as the reading of TypeScript; files handed to the model in sorted path order.",
     "technique": "Rocq/Coq proof over hand-written model + correspondence check (extracted OCaml vs Rust harness and the real CLI)"
@@ -22,6 +22,7 @@ MANIFEST = {
 
 RULE = ("placements: every documented placement (22) x every documented receiver form and every non-receiver (17) x emit/emit_to; "
         "fnshapes: enclosing function with no parameters / only non-handle parameters / only the handle / a local let named app, window or webview (untyped, mut, typed) x receivers that fit (static method chain, clone of it, call().clone(), field of a global, field of a call result, plain call and the static itself which must not count) x attributes/visibility/async/unsafe/const/command-or-not (29 combinations) x rotating placement x emit/emit_to; "
+        "bindings: histories of the bindings of one name (16 binding kinds pairwise and random histories of 3-6, with / without a parameter of the name, emit after every prefix); "
         "receiver-types: declared TYPE of the emitting receiver (56 declarations: handle types plain / referenced / qualified / with runtime parameter, generic parameter with bound or where clause, impl Trait, dyn Trait, Arc / Box / Rc / State / MutexGuard / Option / Cow wrappers, alias-like and application type names, tuple, let-bound handles from associated calls, struct expressions, copies of typed variables, method results, typed lets, shadowing, leaking block-local bindings) x receiver name app / window / webview (and a non-handle name that must not count) x variable / .clone() x emit / emit_to x rotating placement and payload; also drawn as a function shape in the structured stream; "
         "unicode-names (judged by the oracle beyond the ASCII name alphabet): 77 non-ASCII characters of 8 classes (letters of 10 scripts, letters with special case mappings, enclosed / circled letters and numbers, symbols and emoji, digits of other scripts, combining marks and joiners, punctuation and spaces) x 10 positions (alone, doubled, leading, trailing, between separators, inside a word, next to a digit), several such names in one module; identifier legality decided per code point (Spec/C12Uni.v); "
         "compositions: every ordered pair of 33 wrappers around one emit (15 documented: method receiver without/with arguments, await, ?, block, if-then, if-else, else-if, match arm expression/block, loop, while, for, let and let-else initialiser in a block; 18 undocumented: parentheses, &, unary, cast, call/method argument, field access, index, closure call, return, break value, macro argument, tuple, closure body, unsafe/async block, condition, scrutinee), 500 (quick) sampled triples, as let initialiser and as expression statement; "
@@ -311,7 +312,9 @@ def run(rep):
                ("rawidents", G.enum_raw_idents(), True),
                ("payloads", G.enum_payloads(), True),
                ("names", G.enum_names(), True),
-               ("repeats", G.enum_repeats(), True)]
+               ("repeats", G.enum_repeats(), True),
+               # binding histories of one name (Spec/C12Bind.v): own generator state, the other streams keep their draws
+               ("bindings", G.enum_bindings(random.Random("c12-bindings-%s" % rep.seed), 400 if thorough else 60), True)]
     n_struct = 12000 if thorough else 1400
     structured = [G.structured_case(rng, rng.random() < 0.3) for _ in range(n_struct)]
     streams.append(("structured", structured, True))
